@@ -405,3 +405,405 @@ Proof.
   2:{ eapply lower_bound_incl; [|exact LB]. simpl; auto. }
   apply hv_box_mono. simpl; auto.
 Qed.
+
+(* ========================================================================================== *)
+(* 3. the 2-D sort-and-sweep equals the spec *)
+
+Definition cov (L : list (Z * Z)) (z w : Z) : bool :=
+  existsb (fun p => (fst p <=? z) && (snd p <=? w)) L.
+Definition width (lo r0 : Z) (L : list (Z * Z)) (w : Z) : Z :=
+  zsum lo r0 (fun z => if cov L z w then 1 else 0).
+Definition area_below (lo r0 : Z) (L : list (Z * Z)) (m : Z) : Z :=
+  zsum lo m (width lo r0 L).
+
+Lemma cov_set_ext L L' z w : (forall p, In p L <-> In p L') -> cov L z w = cov L' z w.
+Proof.
+  intros H. unfold cov. apply eq_true_iff_eq. rewrite !existsb_exists.
+  split; intros [p [Hin Hp]]; exists p; split; auto; apply H; auto.
+Qed.
+
+Lemma area_below_set_ext lo r0 L L' m :
+  (forall p, In p L <-> In p L') -> area_below lo r0 L m = area_below lo r0 L' m.
+Proof.
+  intros H. unfold area_below, width. apply zsum_ext. intros w _. apply zsum_ext. intros z _.
+  now rewrite (cov_set_ext L L' z w H).
+Qed.
+
+Definition len2 (S : list point) : Prop := Forall (fun p => length p = 2%nat) S.
+
+Lemma slice2_nil_iff z w S : len2 S ->
+  (slice z (slice w (map (@rev Z) S)) = [] <-> cov (map to_pair S) z w = false).
+Proof.
+  induction 1 as [|p S Hp HS IH]; simpl; [tauto|].
+  destruct p as [|x [|y [|? ?]]]; try discriminate. simpl.
+  destruct (Z.leb_spec y w); simpl.
+  - destruct (Z.leb_spec x z); simpl.
+    + split; discriminate.
+    + exact IH.
+  - rewrite andb_false_r. simpl. exact IH.
+Qed.
+
+Lemma hv_box_2d lo r0 r1 S : len2 S ->
+  hv_box lo [r1; r0] (map (@rev Z) S) = area_below lo r0 (map to_pair S) r1.
+Proof.
+  intros H. unfold area_below, width. cbn [hv_box]. apply zsum_ext. intros w _.
+  apply zsum_ext. intros z _.
+  pose proof (slice2_nil_iff z w S H) as E.
+  destruct (slice z (slice w (map (@rev Z) S))) as [|t l]; destruct (cov (map to_pair S) z w); auto.
+  - destruct E as [E _]. specialize (E eq_refl). discriminate.
+  - destruct E as [_ E]. specialize (E eq_refl). discriminate.
+Qed.
+
+(* sortedness by first objective: head is <= every later element *)
+Inductive sorted_x : list (Z * Z) -> Prop :=
+| sx_nil : sorted_x []
+| sx_cons p L : (forall q, In q L -> fst p <= fst q) -> sorted_x L -> sorted_x (p :: L).
+
+Lemma insert_x_In p q l : In q (insert_x p l) <-> q = p \/ In q l.
+Proof.
+  induction l as [|a l IH]; simpl.
+  - intuition.
+  - destruct (fst p <=? fst a); simpl; rewrite ?IH; intuition.
+Qed.
+
+Lemma sort_x_In q l : In q (sort_x l) <-> In q l.
+Proof.
+  induction l as [|a l IH]; simpl; [tauto|]. rewrite insert_x_In, IH. intuition.
+Qed.
+
+Lemma insert_x_sorted p l : sorted_x l -> sorted_x (insert_x p l).
+Proof.
+  induction 1 as [|a l Ha Hs IH]; simpl.
+  - constructor; [intros q []|constructor].
+  - destruct (Z.leb_spec (fst p) (fst a)).
+    + constructor; [|constructor; auto].
+      intros q [<-|Hq]; auto. specialize (Ha q Hq). lia.
+    + constructor; auto. intros q Hq. apply insert_x_In in Hq. destruct Hq as [->|Hq]; [lia|auto].
+Qed.
+
+Lemma sort_x_sorted l : sorted_x (sort_x l).
+Proof. induction l; simpl; [constructor|now apply insert_x_sorted]. Qed.
+
+(* levels below y are not affected by a point (x,y); levels y..m are covered from x on *)
+Lemma width_cons_above lo r0 x y L w : w < y -> width lo r0 ((x, y) :: L) w = width lo r0 L w.
+Proof.
+  intros H. unfold width. apply zsum_ext. intros z _. unfold cov. simpl.
+  destruct (Z.leb_spec y w); [lia|]. now rewrite andb_false_r.
+Qed.
+
+Lemma width_cons_covered lo r0 x y L w :
+  y <= w -> lo <= x <= r0 -> (forall q, In q L -> x <= fst q) ->
+  width lo r0 ((x, y) :: L) w = r0 - x.
+Proof.
+  intros Hy Hx Hmin. unfold width. rewrite (zsum_split lo x r0) by lia.
+  rewrite (zsum_zero lo x).
+  - rewrite (zsum_ext x r0 _ (fun _ => 1)).
+    + rewrite zsum_const by lia. lia.
+    + intros z Hz. unfold cov. simpl.
+      destruct (Z.leb_spec x z); [|lia]. destruct (Z.leb_spec y w); [|lia]. reflexivity.
+  - intros z Hz. unfold cov. simpl. destruct (Z.leb_spec x z); [lia|]. simpl.
+    destruct (existsb _ L) eqn:E; auto.
+    apply existsb_exists in E. destruct E as [q [Hq Hc]].
+    apply andb_prop in Hc. destruct Hc as [Hc _]. apply Z.leb_le in Hc.
+    specialize (Hmin q Hq). lia.
+Qed.
+
+Lemma area_cons_le lo r0 x y L m :
+  lo <= y <= m -> lo <= x <= r0 -> (forall q, In q L -> x <= fst q) ->
+  area_below lo r0 ((x, y) :: L) m = (r0 - x) * (m - y) + area_below lo r0 L y.
+Proof.
+  intros Hy Hx Hmin. unfold area_below. rewrite (zsum_split lo y m) by lia.
+  rewrite (zsum_ext lo y _ (width lo r0 L)) by (intros; apply width_cons_above; lia).
+  rewrite (zsum_ext y m _ (fun _ => r0 - x)) by (intros; apply width_cons_covered; auto; lia).
+  rewrite zsum_const by lia. lia.
+Qed.
+
+Lemma area_cons_ge lo r0 x y L m :
+  m <= y -> area_below lo r0 ((x, y) :: L) m = area_below lo r0 L m.
+Proof.
+  intros H. unfold area_below. apply zsum_ext. intros w Hw. apply width_cons_above. lia.
+Qed.
+
+Definition in_box2 (lo r0 : Z) (L : list (Z * Z)) : Prop :=
+  forall p, In p L -> lo <= fst p <= r0 /\ lo <= snd p.
+
+Lemma sweep_fold lo r0 : forall L vol m,
+  sorted_x L -> in_box2 lo r0 L -> lo <= m ->
+  fst (fold_left (sweep_step r0) L (vol, m)) = vol + area_below lo r0 L m.
+Proof.
+  induction L as [|[x y] L IH]; intros vol m HS HB Hm; simpl.
+  - unfold area_below, width. rewrite zsum_zero; [lia|]. intros. apply zsum_zero. auto.
+  - inversion HS as [|p L' Hmin HS']; subst. simpl in Hmin.
+    destruct (HB (x, y) (or_introl eq_refl)) as [Hx Hy]. simpl in Hx, Hy.
+    assert (HB' : in_box2 lo r0 L) by (intros q Hq; apply HB; simpl; auto).
+    unfold sweep_step at 2. simpl. destruct (Z.ltb_spec 0 (m - y)).
+    + rewrite IH by auto. rewrite (area_cons_le lo r0 x y L m) by (auto; lia). lia.
+    + rewrite IH by auto. rewrite area_cons_ge by lia. reflexivity.
+Qed.
+
+Lemma hv2d_sweep_area lo r0 r1 L :
+  sorted_x L -> in_box2 lo r0 L -> (forall p, In p L -> snd p <= r1) ->
+  hv2d_sweep r0 r1 L = area_below lo r0 L r1.
+Proof.
+  intros HS HB HR. destruct L as [|[x y] L]; simpl.
+  - unfold area_below, width. symmetry. apply zsum_zero. intros. apply zsum_zero. auto.
+  - inversion HS as [|p L' Hmin HS']; subst. simpl in Hmin.
+    destruct (HB (x, y) (or_introl eq_refl)) as [Hx Hy]. simpl in Hx, Hy.
+    pose proof (HR (x, y) (or_introl eq_refl)) as Hr. simpl in Hr.
+    assert (HB' : in_box2 lo r0 L) by (intros q Hq; apply HB; simpl; auto).
+    rewrite (sweep_fold lo) by auto.
+    rewrite (area_cons_le lo r0 x y L r1) by (auto; lia). reflexivity.
+Qed.
+
+(* points of a 2-objective set inside the box below the reference point *)
+Definition below_ref (ref : point) (S : list point) : Prop := forall p, In p S -> leq_all p ref.
+
+Lemma below_ref_len2 r0 r1 S : below_ref [r0; r1] S -> len2 S.
+Proof.
+  intros H. apply Forall_forall. intros p Hp. specialize (H p Hp).
+  apply leq_all_length in H. exact H.
+Qed.
+
+(* main theorem, for ANY arrangement of the points that is sorted by the first objective
+   (std::sort leaves the order of equal keys unspecified) *)
+Theorem hv2d_sweep_correct r0 r1 S L :
+  below_ref [r0; r1] S ->
+  (forall p, In p L <-> In p (map to_pair S)) -> sorted_x L ->
+  hv2d_sweep r0 r1 L = hv_spec [r0; r1] S.
+Proof.
+  intros HB HL HS.
+  pose proof (below_ref_len2 r0 r1 S HB) as H2.
+  set (lo := min_coord [r0; r1] S).
+  pose proof (min_coord_lower_bound [r0; r1] S) as LB. fold lo in LB.
+  unfold hv_spec. fold lo. cbn [rev app]. rewrite hv_box_2d by auto.
+  rewrite <- (area_below_set_ext lo r0 L (map to_pair S) r1 HL).
+  assert (F : forall p, In p L -> lo <= fst p <= r0 /\ lo <= snd p <= r1).
+  { intros p Hp. apply HL in Hp. apply in_map_iff in Hp. destruct Hp as [q [<- Hq]].
+    pose proof (HB q Hq) as Hle. pose proof (LB q Hq) as Hlo.
+    inversion Hle as [|x a t1 t2 Hx Ht]; subst. inversion Ht as [|y b t3 t4 Hy Ht']; subst.
+    inversion Ht'; subst. simpl.
+    pose proof (Hlo x ltac:(simpl; auto)). pose proof (Hlo y ltac:(simpl; auto)). lia. }
+  apply hv2d_sweep_area; auto.
+  - intros p Hp. specialize (F p Hp). lia.
+  - intros p Hp. specialize (F p Hp). lia.
+Qed.
+
+Theorem hv2d_correct ref S :
+  length ref = 2%nat -> below_ref ref S -> hv2d ref S = hv_spec ref S.
+Proof.
+  intros Hl HB. destruct ref as [|r0 [|r1 [|? ?]]]; try discriminate.
+  unfold hv2d. apply hv2d_sweep_correct; auto.
+  - intros p. apply sort_x_In.
+  - apply sort_x_sorted.
+Qed.
+
+(* the premises are satisfiable, and the value is the expected one *)
+Example hv2d_example :
+  below_ref [6; 6] [[1; 5]; [2; 3]; [2; 3]; [4; 4]; [3; 1]] /\
+  hv2d [6; 6] [[1; 5]; [2; 3]; [2; 3]; [4; 4]; [3; 1]] = 19.
+Proof.
+  split; [|reflexivity].
+  intros p Hp. simpl in Hp. unfold leq_all.
+  repeat (destruct Hp as [<-|Hp]; [repeat constructor; lia|]). destruct Hp.
+Qed.
+
+(* ========================================================================================== *)
+(* 4. ranks: the defining equation has exactly one solution and rank_list computes it *)
+Local Close Scope Z_scope.
+
+Definition same_dim (d : nat) (S : list point) : Prop := forall p, In p S -> length p = d.
+
+Lemma count_lt_refl a : count_lt a a = 0.
+Proof. induction a as [|x a IH]; simpl; auto. rewrite Z.ltb_irrefl. auto. Qed.
+
+Lemma domb_irrefl a : domb a a = false.
+Proof. unfold domb, dominance. rewrite count_lt_refl. reflexivity. Qed.
+
+Lemma domb_trans a b c : length a = length b -> length b = length c ->
+  domb a b = true -> domb b c = true -> domb a c = true.
+Proof.
+  intros L1 L2 H1 H2. apply domb_true_iff in H1; auto. apply domb_true_iff in H2; auto.
+  apply domb_true_iff; [congruence|]. eapply dominates_trans; eauto.
+Qed.
+
+Lemma filter_length_le {A} (f g : A -> bool) l :
+  (forall x, In x l -> f x = true -> g x = true) -> length (filter f l) <= length (filter g l).
+Proof.
+  induction l as [|a l IH]; intros H; simpl; auto.
+  assert (IH' := IH (fun x Hx => H x (or_intror Hx))).
+  destruct (f a) eqn:Fa.
+  - rewrite (H a (or_introl eq_refl) Fa). simpl. lia.
+  - destruct (g a); simpl; lia.
+Qed.
+
+Lemma filter_length_lt {A} (f g : A -> bool) l x :
+  (forall x, In x l -> f x = true -> g x = true) -> In x l -> f x = false -> g x = true ->
+  length (filter f l) < length (filter g l).
+Proof.
+  induction l as [|a l IH]; intros H Hin Fx Gx; [destruct Hin|]. simpl.
+  assert (Hle := filter_length_le f g l (fun y Hy => H y (or_intror Hy))).
+  destruct Hin as [->|Hin].
+  - rewrite Fx, Gx. simpl. lia.
+  - assert (IH' := IH (fun y Hy => H y (or_intror Hy)) Hin Fx Gx).
+    destruct (f a) eqn:Fa.
+    + rewrite (H a (or_introl eq_refl) Fa). simpl. lia.
+    + destruct (g a); simpl; lia.
+Qed.
+
+Lemma filter_all_true {A} (l : list A) : filter (fun _ => true) l = l.
+Proof. induction l; simpl; congruence. Qed.
+
+Definition ndom (S : list point) (i : nat) : nat := length (dom_idx S (nth i S [])).
+
+Lemma dom_idx_In S p j : In j (dom_idx S p) <-> j < length S /\ domb (nth j S []) p = true.
+Proof. unfold dom_idx. rewrite filter_In, in_seq. intuition lia. Qed.
+
+Lemma ndom_lt_length S i : i < length S -> ndom S i < length S.
+Proof.
+  intros Hi. unfold ndom, dom_idx.
+  rewrite <- (seq_length (length S) 0) at 2. rewrite <- (filter_all_true (seq 0 (length S))) at 2.
+  apply (filter_length_lt _ _ _ i); auto.
+  - apply in_seq. lia.
+  - apply domb_irrefl.
+Qed.
+
+Lemma ndom_decreases d S i j : same_dim d S -> i < length S -> j < length S ->
+  domb (nth j S []) (nth i S []) = true -> ndom S j < ndom S i.
+Proof.
+  intros SD Hi Hj Hd. unfold ndom, dom_idx.
+  assert (LD : forall k, k < length S -> length (nth k S []) = d) by (intros k Hk; apply SD, nth_In; auto).
+  apply (filter_length_lt _ _ _ j); auto.
+  - intros k Hk Hkj. apply in_seq in Hk.
+    apply (domb_trans _ (nth j S [])); auto; rewrite !LD; auto; lia.
+  - apply in_seq. lia.
+  - apply domb_irrefl.
+Qed.
+
+Lemma step_ranks_length S r : length (step_ranks S r) = length S.
+Proof. unfold step_ranks. apply map_length. Qed.
+
+Lemma nth_step_ranks S r i : i < length S ->
+  nth i (step_ranks S r) 0 = 1 + list_max (map (fun j => nth j r 0) (dom_idx S (nth i S []))).
+Proof.
+  intros Hi. unfold step_ranks.
+  set (f := fun p => 1 + list_max (map (fun j => nth j r 0) (dom_idx S p))).
+  rewrite (nth_indep _ 0 (f [])) by (rewrite map_length; auto).
+  rewrite map_nth. reflexivity.
+Qed.
+
+Lemma is_rank_iff_fixpoint S r : is_rank_assignment S r <-> step_ranks S r = r.
+Proof.
+  split.
+  - intros [L H]. apply (nth_ext _ _ 0 0); [rewrite step_ranks_length; auto|].
+    intros i Hi. rewrite step_ranks_length in Hi. rewrite nth_step_ranks by auto. symmetry; auto.
+  - intros E. split.
+    + rewrite <- E. apply step_ranks_length.
+    + intros i Hi. rewrite <- E at 1. now apply nth_step_ranks.
+Qed.
+
+Lemma rank_eq_by_dominators S (r r' : list nat) i :
+  (forall j, In j (dom_idx S (nth i S [])) -> nth j r 0 = nth j r' 0) ->
+  1 + list_max (map (fun j => nth j r 0) (dom_idx S (nth i S []))) =
+  1 + list_max (map (fun j => nth j r' 0) (dom_idx S (nth i S []))).
+Proof. intros H. do 2 f_equal. apply map_ext_in. exact H. Qed.
+
+Theorem rank_unique d S r r' : same_dim d S ->
+  is_rank_assignment S r -> is_rank_assignment S r' -> r = r'.
+Proof.
+  intros SD [L H] [L' H'].
+  assert (K : forall k i, i < length S -> ndom S i < k -> nth i r 0 = nth i r' 0).
+  { induction k as [|k IH]; intros i Hi Hk; [lia|].
+    rewrite H, H' by auto. apply rank_eq_by_dominators.
+    intros j Hj. apply dom_idx_In in Hj. destruct Hj as [Hj Hd].
+    apply IH; auto. pose proof (ndom_decreases d S i j SD Hi Hj Hd). lia. }
+  apply (nth_ext _ _ 0 0); [congruence|].
+  intros i Hi. apply (K (length S)); [lia|]. apply ndom_lt_length. lia.
+Qed.
+
+Lemma iter_step_length S r0 t : length r0 = length S ->
+  length (Nat.iter t (step_ranks S) r0) = length S.
+Proof. intros H. destruct t; simpl; auto. apply step_ranks_length. Qed.
+
+Lemma iter_stable d S r0 : same_dim d S ->
+  forall k i, i < length S -> ndom S i < k ->
+  forall t, k <= t ->
+    nth i (Nat.iter (Datatypes.S t) (step_ranks S) r0) 0 = nth i (Nat.iter t (step_ranks S) r0) 0.
+Proof.
+  intros SD. induction k as [|k IH]; intros i Hi Hk t Ht; [lia|].
+  destruct t as [|t]; [lia|].
+  replace (Nat.iter (Datatypes.S (Datatypes.S t)) (step_ranks S) r0)
+    with (step_ranks S (Nat.iter (Datatypes.S t) (step_ranks S) r0)) by reflexivity.
+  replace (nth i (Nat.iter (Datatypes.S t) (step_ranks S) r0) 0)
+    with (nth i (step_ranks S (Nat.iter t (step_ranks S) r0)) 0) by reflexivity.
+  rewrite !nth_step_ranks by auto. apply rank_eq_by_dominators.
+  intros j Hj. apply dom_idx_In in Hj. destruct Hj as [Hj Hd].
+  apply (IH j Hj); [|lia]. pose proof (ndom_decreases d S i j SD Hi Hj Hd). lia.
+Qed.
+
+Theorem rank_list_is_rank d S : same_dim d S -> is_rank_assignment S (rank_list S).
+Proof.
+  intros SD. unfold rank_list. split.
+  - apply iter_step_length. apply map_length.
+  - intros i Hi.
+    rewrite <- (iter_stable d S _ SD (length S) i Hi (ndom_lt_length S i Hi) (length S) (le_n _)).
+    replace (Nat.iter (Datatypes.S (length S)) (step_ranks S) (map (fun _ => 0) S))
+      with (step_ranks S (Nat.iter (length S) (step_ranks S) (map (fun _ => 0) S))) by reflexivity.
+    now apply nth_step_ranks.
+Qed.
+
+(* consequences of the defining equation, in the form "consistent fronts" *)
+Lemma list_max_ge l x : In x l -> x <= list_max l.
+Proof.
+  induction l as [|a l IH]; intros H; [destruct H|]. simpl. destruct H as [->|H]; [lia|].
+  specialize (IH H). lia.
+Qed.
+
+Lemma list_max_attained l : l <> [] -> In (list_max l) l.
+Proof.
+  induction l as [|a l IH]; intros H; [congruence|]. simpl.
+  destruct l as [|b l]; [simpl; lia|].
+  destruct (Nat.max_spec a (list_max (b :: l))) as [[_ ->]|[_ ->]]; auto.
+  right. apply IH. discriminate.
+Qed.
+
+Theorem rank_fronts_consistent S r : is_rank_assignment S r ->
+  forall i, i < length S ->
+    1 <= nth i r 0 /\
+    (* no dominator has an equal or larger rank *)
+    (forall j, j < length S -> domb (nth j S []) (nth i S []) = true -> nth j r 0 < nth i r 0) /\
+    (* a point of rank > 1 is dominated by a point of the preceding rank *)
+    (1 < nth i r 0 -> exists j, j < length S /\ domb (nth j S []) (nth i S []) = true /\
+                                Datatypes.S (nth j r 0) = nth i r 0) /\
+    (* rank 1 = non-dominated *)
+    (nth i r 0 = 1 <-> forall j, j < length S -> domb (nth j S []) (nth i S []) = false).
+Proof.
+  intros [L H] i Hi. rewrite (H i Hi).
+  set (D := dom_idx S (nth i S [])).
+  set (vals := map (fun j => nth j r 0) D).
+  assert (IN : forall j, j < length S -> domb (nth j S []) (nth i S []) = true -> In (nth j r 0) vals).
+  { intros j Hj Hd. unfold vals. apply in_map_iff. exists j. split; auto. apply dom_idx_In. auto. }
+  split; [lia|]. split; [|split].
+  - intros j Hj Hd. pose proof (list_max_ge vals _ (IN j Hj Hd)). lia.
+  - intros Hgt. destruct vals as [|v vs] eqn:E; [simpl in Hgt; lia|].
+    assert (In (list_max (v :: vs)) vals) as Hm by (rewrite E; apply list_max_attained; discriminate).
+    unfold vals in Hm. apply in_map_iff in Hm. destruct Hm as [j [Hv Hj]].
+    unfold D in Hj. apply dom_idx_In in Hj. destruct Hj as [Hj Hd]. exists j.
+    split; [auto|]. split; [auto|]. rewrite Hv. reflexivity.
+  - split.
+    + intros E j Hj. destruct (domb (nth j S []) (nth i S [])) eqn:Hd; auto.
+      pose proof (list_max_ge vals _ (IN j Hj Hd)) as Hge.
+      assert (K : 1 <= nth j r 0) by (rewrite (H j Hj); lia). lia.
+    + intros Hnd. assert (D = []) as ->; [|reflexivity].
+      destruct D as [|j D'] eqn:E; auto.
+      assert (In j (dom_idx S (nth i S []))) as Hj by (fold D; rewrite E; simpl; auto).
+      apply dom_idx_In in Hj. destruct Hj as [Hj Hd]. rewrite Hnd in Hd by auto. discriminate.
+Qed.
+
+Example rank_example :
+  same_dim 2 [[1; 5]; [2; 3]; [2; 3]; [4; 4]; [3; 1]; [5; 5]; [1; 5]]%Z /\
+  rank_list [[1; 5]; [2; 3]; [2; 3]; [4; 4]; [3; 1]; [5; 5]; [1; 5]]%Z = [1; 1; 1; 2; 1; 3; 1] /\
+  fast_nds [[1; 5]; [2; 3]; [2; 3]; [4; 4]; [3; 1]; [5; 5]; [1; 5]]%Z = [1; 1; 1; 2; 1; 3; 1].
+Proof.
+  split; [|split; reflexivity].
+  intros p Hp. simpl in Hp. repeat (destruct Hp as [<-|Hp]; [reflexivity|]). destruct Hp.
+Qed.
